@@ -1,7 +1,7 @@
 """C46 — CPU pinning choices are valid and stable (spec/CpuPick.tla, vector mode + observations)."""
 import json, os
 
-RULE = ("V(pin): every element of CpuPick.tla's lattice is one TLC state: all non-empty allowed subsets of NCpu CPUs (5 quick / "
+RULE = ("V(pin): every element of CpuPick.tla's lattice is one TLC state: all non-empty allowed subsets of NCpu CPUs (4 quick / "
         "6 thorough) x 4 performance masks x 4 NUMA layouts x 3 SMT layouts x CPU-0-core known/unknown x routines 1..4; TLC "
         "checks that the code's arrange (all node choices x rotations) satisfies Post and emits the acceptable member sets; "
         "the real pickCandidates/arrange run under 4-8 instance hashes each. V(list): all strings of length <= 4 (5) over "
@@ -24,7 +24,7 @@ ASSUMPTIONS = [
 def run(ctx):
     cfg = open(ctx.spec_dir() + '/Vec_CpuPick.cfg').read()
     if not ctx.quick:
-        cfg = cfg.replace('NCpu = 5', 'NCpu = 6').replace('MaxStr = 4', 'MaxStr = 5')
+        cfg = cfg.replace('NCpu = 4', 'NCpu = 6').replace('MaxStr = 4', 'MaxStr = 5')
     n = ctx.tlc_vectors('CpuPick', 'Vec_CpuPick_run.cfg', cfgtext=cfg, timeout=2400)
     ctx.extra['vectors'] = n
     res = ctx.gotest('cpupick', 'TestVerif_C46')
